@@ -69,6 +69,12 @@ type pyFuncSpec struct {
 	Nested int // 0 none, 1 one nested def, 2 a nested def that has a nested def, 3 two nested defs
 	Async  bool
 	Doc    bool
+	// added by the widening round (zero value = the plain variant)
+	Returns      int  // 1 "-> int", 2 "-> \"Model\""
+	MultiLineSig bool // the parameter list is spread over several lines
+	OneLine      bool // "def f(self): return 1" (only without docstring and nested defs)
+	DecComment   bool // a comment line between the decorators and the def
+	DocMulti     bool // with Doc: a docstring of several lines that contains the text of a class and a def
 }
 
 type pyClassSpec struct {
@@ -78,6 +84,11 @@ type pyClassSpec struct {
 	Doc     bool
 	Methods []pyFuncSpec
 	Inner   int // 0 none; k > 0: an inner class (Django's `class Meta:`) written after the first k-1 methods
+	// added by the widening round (zero value = the plain variant)
+	Property    int  // k > 0: a property with getter and setter (two defs of one name) written after the first k-1 methods
+	ZeroComment bool // a comment at column 0 between the methods
+	SpaceLine   bool // a line of blanks only between the methods
+	DocMulti    bool // with Doc: a docstring of several lines that contains the text of a class and a def
 }
 
 type pyImportSpec struct {
@@ -96,6 +107,11 @@ type pySpec struct {
 	NoFinalNL  bool
 	BlankLines int
 	ModuleVars bool
+	// added by the widening round (zero value = the plain variant)
+	LateImports []pyImportSpec // import statements written between / after the definitions; Form/4 = position
+	CRLF        bool
+	SharedClass bool // the first class is called Config whatever the prefix (modules of a project may share a class name)
+	SharedFunc  bool // the first function is called Setup whatever the prefix
 }
 
 var (
@@ -106,7 +122,12 @@ var (
 	pyModules   = []string{"os", "os.path", "sys", "json", "collections.abc", "django.db.models", "flask", "typing"}
 	pyFromNames = []string{"path", "List, Dict", "models as m", "Flask, request", "abc"}
 	pyParams    = []string{"", "a", "a, b=1", "*args, **kwargs", "a: int, b: str = \"x\"", "a, *, key=None"}
-	pyBodies    = []string{"pass", "return 1", "x = 1\nreturn x", "print(\"hi\")", "self_count = 0\nself_count += 1", "raise ValueError(\"no\")", "return [i for i in range(3)]"}
+	pyBodies    = []string{"pass", "return 1", "x = 1\nreturn x", "print(\"hi\")", "self_count = 0\nself_count += 1", "raise ValueError(\"no\")", "return [i for i in range(3)]",
+		// compound statements: the block structure goes two levels below the def
+		"if True:\n    x = 1\nelse:\n    x = 2\nreturn x", "for i in range(3):\n    if i:\n        continue\n    print(i)",
+		"try:\n    x = 1\nexcept ValueError:\n    x = 2\nfinally:\n    pass", "with open(\"f\") as fh:\n    data = fh.read()\nwhile False:\n    break",
+		"return f\"{1 + 2!r} and {3}\"", "key = lambda v: -v\nreturn {k: v for k, v in {}.items()}"}
+	pyMultiParams = []string{"", "a,", "a,\nb=1,", "*args,\n**kwargs", "a: int,\nb: str = \"x\",", "a,\n*,\nkey=None,"}
 )
 
 var pyDecSpecGen = rapid.Custom(func(t *rapid.T) pyDecSpec {
@@ -125,6 +146,13 @@ var pyFuncSpecGen = rapid.Custom(func(t *rapid.T) pyFuncSpec {
 	f.Nested = rapid.SampledFrom([]int{0, 0, 0, 0, 1, 1, 2, 3}).Draw(t, "nestedDefs")
 	f.Async = rapid.IntRange(0, 7).Draw(t, "async") == 7
 	f.Doc = rapid.IntRange(0, 4).Draw(t, "docstring") == 4
+	if rapid.IntRange(0, 4).Draw(t, "returnAnnotation") == 4 {
+		f.Returns = rapid.IntRange(1, 2).Draw(t, "returnAnnotationForm")
+	}
+	f.MultiLineSig = rapid.IntRange(0, 7).Draw(t, "multiLineSignature") == 7
+	f.OneLine = rapid.IntRange(0, 9).Draw(t, "oneLineDef") == 9
+	f.DecComment = rapid.IntRange(0, 5).Draw(t, "commentAfterDecorators") == 5
+	f.DocMulti = rapid.IntRange(0, 2).Draw(t, "docstringOfSeveralLines") == 2
 	return f
 })
 
@@ -141,6 +169,12 @@ var pyClassSpecGen = rapid.Custom(func(t *rapid.T) pyClassSpec {
 	if rapid.IntRange(0, 4).Draw(t, "innerClass") == 4 && !pbt.Excluded("py_nested_class") {
 		c.Inner = 1 + rapid.IntRange(0, len(c.Methods)).Draw(t, "innerClassAfter")
 	}
+	if rapid.IntRange(0, 4).Draw(t, "property") == 4 {
+		c.Property = 1 + rapid.IntRange(0, len(c.Methods)).Draw(t, "propertyAfter")
+	}
+	c.ZeroComment = rapid.IntRange(0, 5).Draw(t, "commentAtColumnZero") == 5
+	c.SpaceLine = rapid.IntRange(0, 5).Draw(t, "lineOfBlanks") == 5
+	c.DocMulti = rapid.IntRange(0, 2).Draw(t, "classDocstringOfSeveralLines") == 2
 	return c
 })
 
@@ -160,6 +194,14 @@ func drawPySpec(t *rapid.T) pySpec {
 	p.NoFinalNL = rapid.IntRange(0, 7).Draw(t, "noFinalNewline") == 7
 	p.BlankLines = rapid.IntRange(0, 2).Draw(t, "blankLines")
 	p.ModuleVars = rapid.IntRange(0, 3).Draw(t, "moduleVariables") == 3
+	if rapid.IntRange(0, 3).Draw(t, "lateImports") == 3 {
+		p.LateImports = rapid.SliceOfN(rapid.Custom(func(t *rapid.T) pyImportSpec {
+			return pyImportSpec{Form: rapid.IntRange(0, 19).Draw(t, "lateImportFormAndPlace"), Mod: rapid.IntRange(0, len(pyModules)-1).Draw(t, "module")}
+		}), 1, 2).Draw(t, "lateImportList")
+	}
+	p.CRLF = rapid.IntRange(0, 9).Draw(t, "crlf") == 9
+	p.SharedClass = rapid.IntRange(0, 3).Draw(t, "sharedClassName") == 3
+	p.SharedFunc = rapid.IntRange(0, 3).Draw(t, "sharedFunctionName") == 3
 	return p
 }
 
@@ -168,6 +210,8 @@ type pyWriter struct {
 	unit string
 	seq  int
 }
+
+func (w *pyWriter) raw(s string) { w.b.WriteString(s) }
 
 func (w *pyWriter) line(depth int, s string) {
 	for _, l := range strings.Split(s, "\n") {
@@ -194,6 +238,8 @@ func renderDecs(w *pyWriter, depth int, specs []pyDecSpec, feats map[string]bool
 	return out
 }
 
+const pyFakeDoc = "Summary line.\n\nclass Fake:\n    def fake(self):\n        pass\n\nEnd of the text.\n"
+
 func renderPyFunc(w *pyWriter, depth int, fs pyFuncSpec, name string, method bool, feats map[string]bool) PyFunc {
 	f := PyFunc{Name: name}
 	f.Decs = renderDecs(w, depth, fs.Decs, feats)
@@ -202,6 +248,10 @@ func renderPyFunc(w *pyWriter, depth int, fs pyFuncSpec, name string, method boo
 			feats["decorated_method"] = true
 		} else {
 			feats["decorated_function"] = true
+		}
+		if fs.DecComment {
+			w.line(depth, "# the decorated definition follows")
+			feats["comment_between_decorator_and_def"] = true
 		}
 	}
 	params := pyParams[fs.Params%len(pyParams)]
@@ -217,9 +267,43 @@ func renderPyFunc(w *pyWriter, depth int, fs pyFuncSpec, name string, method boo
 		kw = "async def "
 		feats["async_def"] = true
 	}
-	w.line(depth, kw+name+"("+params+"):")
+	ret := []string{"", " -> int", " -> \"Model\""}[fs.Returns%3]
+	if ret != "" {
+		feats["return_annotation"] = true
+	}
+	oneLine := fs.OneLine && !fs.Doc && fs.Nested == 0
+	tail := ":"
+	if oneLine {
+		tail = ": return 1"
+		feats["one_line_def"] = true
+	}
+	if fs.MultiLineSig {
+		// def name(
+		//     self,
+		//     a,
+		// ):
+		w.line(depth, kw+name+"(")
+		if method {
+			w.line(depth+2, "self,")
+		}
+		if mp := pyMultiParams[fs.Params%len(pyParams)]; mp != "" {
+			w.line(depth+2, mp)
+		}
+		w.line(depth, ")"+ret+tail)
+		feats["signature_over_several_lines"] = true
+	} else {
+		w.line(depth, kw+name+"("+params+")"+ret+tail)
+	}
+	if oneLine {
+		return f
+	}
 	if fs.Doc {
-		w.line(depth+1, "\"\"\"Docstring of "+name+".\"\"\"")
+		if fs.DocMulti {
+			w.raw(strings.Repeat(w.unit, depth+1) + "\"\"\"" + pyFakeDoc + strings.Repeat(w.unit, depth+1) + "\"\"\"\n")
+			feats["docstring_with_class_and_def_text"] = true
+		} else {
+			w.line(depth+1, "\"\"\"Docstring of "+name+".\"\"\"")
+		}
 	}
 	nested := func(d int) string {
 		w.seq++
@@ -245,8 +329,28 @@ func renderPyFunc(w *pyWriter, depth int, fs pyFuncSpec, name string, method boo
 		nested(depth + 1)
 		w.line(depth+2, "pass")
 	}
-	w.line(depth+1, pyBodies[fs.Body%len(pyBodies)])
+	body := pyBodies[fs.Body%len(pyBodies)]
+	if strings.Contains(body, "\n    ") {
+		feats["compound_statement_in_body"] = true
+	}
+	w.line(depth+1, body)
 	return f
+}
+
+func pyImportLine(is pyImportSpec, feats map[string]bool) (string, string) {
+	mod := pyModules[is.Mod%len(pyModules)]
+	switch is.Form % 5 {
+	case 0:
+		return "import " + mod, mod
+	case 1:
+		feats["import_as"] = true
+		return "import " + mod + " as alias" + fmt.Sprint(is.Mod), mod
+	case 2, 3:
+		feats["from_import"] = true
+		return "from " + mod + " import " + pyFromNames[(is.Mod+is.Form%5)%len(pyFromNames)], mod
+	}
+	feats["from_import"] = true
+	return "from " + mod + " import (name_a, name_b)", mod
 }
 
 func renderPy(p pySpec, prefix, path string) PyModule {
@@ -257,20 +361,8 @@ func renderPy(p pySpec, prefix, path string) PyModule {
 		w.line(0, "# -*- coding: utf-8 -*-\n# generated module: class Fake: def fake(): pass")
 	}
 	for _, is := range p.Imports {
-		mod := pyModules[is.Mod%len(pyModules)]
-		switch is.Form {
-		case 0:
-			w.line(0, "import "+mod)
-		case 1:
-			w.line(0, "import "+mod+" as alias"+fmt.Sprint(is.Mod))
-			feats["import_as"] = true
-		case 2, 3:
-			w.line(0, "from "+mod+" import "+pyFromNames[(is.Mod+is.Form)%len(pyFromNames)])
-			feats["from_import"] = true
-		default:
-			w.line(0, "from "+mod+" import (name_a, name_b)")
-			feats["from_import"] = true
-		}
+		text, mod := pyImportLine(is, feats)
+		w.line(0, text)
 		m.Imports = append(m.Imports, mod)
 	}
 	if p.ModuleVars {
@@ -294,14 +386,38 @@ func renderPy(p pySpec, prefix, path string) PyModule {
 		}
 		sort.SliceStable(defs, func(i, j int) bool { return defs[i].key < defs[j].key })
 	}
+	// import statements between and after the definitions (module level)
+	lateAt := map[int][]pyImportSpec{}
+	for _, is := range p.LateImports {
+		at := 1 + (is.Form/5)%4
+		if at > len(defs) {
+			at = len(defs)
+		}
+		lateAt[at] = append(lateAt[at], is)
+	}
+	writeLate := func(at int) {
+		for _, is := range lateAt[at] {
+			text, mod := pyImportLine(is, feats)
+			w.line(0, text)
+			m.Imports = append(m.Imports, mod)
+			if at > 0 {
+				feats["import_after_a_definition"] = true
+			}
+		}
+	}
+	writeLate(0)
 	usedFn := map[string]bool{}
-	for _, d := range defs {
+	for di, d := range defs {
 		for i := 0; i < p.BlankLines; i++ {
 			w.b.WriteString("\n")
 		}
 		if d.class >= 0 {
 			cs := p.Classes[d.class]
 			c := PyClass{Name: fmt.Sprintf("%sModel%d", prefix, d.class+1)}
+			if p.SharedClass && d.class == 0 {
+				c.Name = "Config"
+				feats["class_name_used_in_several_modules"] = true
+			}
 			c.Decs = renderDecs(w, 0, cs.Decs, feats)
 			if len(c.Decs) > 0 {
 				feats["decorated_class"] = true
@@ -318,7 +434,12 @@ func renderPy(p pySpec, prefix, path string) PyModule {
 			w.line(0, head+":")
 			empty := true
 			if cs.Doc {
-				w.line(1, "\"\"\"A generated class.\"\"\"")
+				if cs.DocMulti {
+					w.raw(w.unit + "\"\"\"" + pyFakeDoc + w.unit + "\"\"\"\n")
+					feats["docstring_with_class_and_def_text"] = true
+				} else {
+					w.line(1, "\"\"\"A generated class.\"\"\"")
+				}
 				empty = false
 			}
 			if cs.Attr {
@@ -339,9 +460,42 @@ func renderPy(p pySpec, prefix, path string) PyModule {
 				feats["inner_class"] = true
 				empty = false
 			}
+			writeProperty := func() {
+				// two defs of one name: the getter and the setter of a property
+				w.line(1, "@property")
+				w.line(1, "def value(self):")
+				w.line(2, "return self._value")
+				if p.BlankLines > 0 {
+					w.b.WriteString("\n")
+				}
+				w.line(1, "@value.setter")
+				w.line(1, "def value(self, new):")
+				w.line(2, "self._value = new")
+				c.Methods = append(c.Methods, PyFunc{Name: "value", Decs: []PyDec{{Name: "property"}}}, PyFunc{Name: "value", Decs: []PyDec{{Name: "value.setter"}}})
+				feats["property_getter_and_setter"] = true
+				feats["decorated_method"] = true
+				feats["decorator_without_arguments"] = true
+				empty = false
+			}
+			between := func(mi int) {
+				if mi == 0 {
+					return
+				}
+				if cs.ZeroComment && mi == 1 {
+					w.raw("# a comment at column 0 inside the class body\n")
+					feats["comment_at_column_0_in_class_body"] = true
+				}
+				if cs.SpaceLine && mi == 1 {
+					w.raw(w.unit + "  \n")
+					feats["line_of_blanks_in_class_body"] = true
+				}
+			}
 			for mi, ms := range cs.Methods {
 				if cs.Inner == mi+1 {
 					writeInner()
+				}
+				if cs.Property == mi+1 {
+					writeProperty()
 				}
 				name := pyMethNames[ms.Name%len(pyMethNames)]
 				for usedM[name] {
@@ -351,11 +505,15 @@ func renderPy(p pySpec, prefix, path string) PyModule {
 				if mi > 0 && p.BlankLines > 0 {
 					w.b.WriteString("\n")
 				}
+				between(mi)
 				c.Methods = append(c.Methods, renderPyFunc(w, 1, ms, name, true, feats))
 				empty = false
 			}
 			if cs.Inner > len(cs.Methods) {
 				writeInner()
+			}
+			if cs.Property > len(cs.Methods) {
+				writeProperty()
 			}
 			if empty {
 				w.line(1, "pass")
@@ -364,15 +522,21 @@ func renderPy(p pySpec, prefix, path string) PyModule {
 				m.Classes = append(m.Classes, *inner)
 			}
 			m.Classes = append(m.Classes, c)
+			writeLate(di + 1)
 			continue
 		}
 		fs := p.Funcs[d.fn]
 		name := pyFuncNames[fs.Name%len(pyFuncNames)] + prefix
+		if p.SharedFunc && d.fn == 0 {
+			name = "Setup"
+			feats["function_name_used_in_several_modules"] = true
+		}
 		for usedFn[name] {
 			name += "_again"
 		}
 		usedFn[name] = true
 		m.Funcs = append(m.Funcs, renderPyFunc(w, 0, fs, name, false, feats))
+		writeLate(di + 1)
 	}
 	if p.MainGuard {
 		w.line(0, "if __name__ == \"__main__\":")
@@ -383,6 +547,10 @@ func renderPy(p pySpec, prefix, path string) PyModule {
 	if p.NoFinalNL {
 		m.Code = strings.TrimRight(m.Code, "\n")
 		feats["no_final_newline"] = true
+	}
+	if p.CRLF {
+		m.Code = strings.ReplaceAll(m.Code, "\n", "\r\n")
+		feats["crlf"] = true
 	}
 	for k := range feats {
 		m.Features = append(m.Features, k)
@@ -461,55 +629,76 @@ func wantDecStrings(list []PyDec) []string {
 }
 
 // judgeDefs: each declared definition exactly once with its decorators; extra entries only for nested defs.
+// A name may be declared twice in one class (getter and setter of a property): then it is listed twice, and
+// the two entries carry the decorators of the two declarations.
 func judgeDefs(where string, got []core_domain.CodeFunction, want []PyFunc) string {
 	nested := map[string]bool{}
-	declared := map[string]PyFunc{}
+	declared := map[string][][]string{}
 	for _, f := range want {
-		declared[f.Name] = f
+		declared[f.Name] = append(declared[f.Name], wantDecStrings(f.Decs))
 		for _, n := range f.Nested {
 			nested[n] = true
 		}
 	}
-	seen := map[string]int{}
+	listed := map[string][][]string{}
 	for _, g := range got {
-		seen[g.Name]++
 		if _, ok := declared[g.Name]; !ok {
 			if !nested[g.Name] {
 				return fmt.Sprintf("%s: %q is listed but not declared there", where, g.Name)
 			}
 			continue
 		}
-		if msg := sameSeq("decorators of "+where+" "+g.Name, decStrings(g.Annotations), wantDecStrings(declared[g.Name].Decs)); msg != "" {
-			return msg
-		}
+		listed[g.Name] = append(listed[g.Name], decStrings(g.Annotations))
 	}
+	done := map[string]bool{}
 	for _, f := range want {
-		if seen[f.Name] != 1 {
-			return fmt.Sprintf("%s: %q is declared once and listed %d time(s)", where, f.Name, seen[f.Name])
+		if done[f.Name] {
+			continue
+		}
+		done[f.Name] = true
+		d, l := declared[f.Name], listed[f.Name]
+		if len(l) != len(d) {
+			return fmt.Sprintf("%s: %q is declared %d time(s) and listed %d time(s)", where, f.Name, len(d), len(l))
+		}
+		if msg := pairUp(len(d), len(l), func(i, j int) string {
+			return sameSeq("decorators of "+where+" "+f.Name, l[j], d[i])
+		}); msg != "" {
+			return msg
 		}
 	}
 	return ""
 }
 
+// judgePyClasses: a class name may be declared in several modules of a project; the declarations of one name
+// are paired one-to-one with the entries of that name.
 func judgePyClasses(ds []core_domain.CodeDataStruct, classes []PyClass) string {
 	var got, want []string
-	byName := map[string]core_domain.CodeDataStruct{}
+	byName := map[string][]core_domain.CodeDataStruct{}
 	for _, d := range ds {
 		got = append(got, d.NodeName)
-		byName[d.NodeName] = d
+		byName[d.NodeName] = append(byName[d.NodeName], d)
 	}
+	wantOf := map[string][]PyClass{}
 	for _, c := range classes {
 		want = append(want, c.Name)
+		wantOf[c.Name] = append(wantOf[c.Name], c)
 	}
 	if msg := sameMultiset("classes", got, want); msg != "" {
 		return msg
 	}
+	done := map[string]bool{}
 	for _, c := range classes {
-		d := byName[c.Name]
-		if msg := sameSeq("decorators of class "+c.Name, decStrings(d.Annotations), wantDecStrings(c.Decs)); msg != "" {
-			return msg
+		if done[c.Name] {
+			continue
 		}
-		if msg := judgeDefs("methods of class "+c.Name, d.Functions, c.Methods); msg != "" {
+		done[c.Name] = true
+		ws, ds := wantOf[c.Name], byName[c.Name]
+		if msg := pairUp(len(ws), len(ds), func(i, j int) string {
+			if msg := sameSeq("decorators of class "+ws[i].Name, decStrings(ds[j].Annotations), wantDecStrings(ws[i].Decs)); msg != "" {
+				return msg
+			}
+			return judgeDefs("methods of class "+ws[i].Name, ds[j].Functions, ws[i].Methods)
+		}); msg != "" {
 			return msg
 		}
 	}
@@ -539,10 +728,57 @@ func judgePyContainer(c core_domain.CodeContainer, m PyModule) string {
 
 type PyCase struct {
 	Module PyModule `json:"module"`
+	// Follow: what is analysed next in the same process, without resetting anything in between:
+	// 1 a small module with one class and one function, 2 an empty module, 3 the same module again.
+	// Each analysis must give the model of its own module and leave the earlier result untouched.
+	Follow int `json:"follow,omitempty"`
+}
+
+var pyFollowModule = PyModule{Path: "pkg/second.py", Code: "import second_mod\n\n\nclass Second:\n    def only(self):\n        pass\n\n\ndef second_fn():\n    pass\n",
+	Imports: []string{"second_mod"}, Classes: []PyClass{{Name: "Second", Methods: []PyFunc{{Name: "only"}}}}, Funcs: []PyFunc{{Name: "second_fn"}}}
+
+func drawFollow(t *rapid.T) int {
+	if rapid.IntRange(0, 2).Draw(t, "followUp") == 2 {
+		return rapid.IntRange(1, 3).Draw(t, "followUpKind")
+	}
+	return 0
 }
 
 func genPyCase(t *rapid.T) PyCase {
-	return PyCase{Module: renderPy(drawPySpec(t), "", "pkg/module.py")}
+	return PyCase{Module: renderPy(drawPySpec(t), "", "pkg/module.py"), Follow: drawFollow(t)}
+}
+
+// judgeFollow analyses the follow-up module of the case in the state the first analysis left behind.
+func judgeFollow(c PyCase, first core_domain.CodeContainer) string {
+	if c.Follow == 0 {
+		return ""
+	}
+	next, what := pyFollowModule, "a second module"
+	switch c.Follow {
+	case 2:
+		next, what = PyModule{Path: "pkg/__init__.py"}, "an empty module"
+	case 3:
+		next, what = c.Module, "the same module again"
+	}
+	if pythonRejectsNext(next.Code) != "" {
+		// the lexer keeps state between files: the follow-up parse is outside the domain when the shipped parser rejects it there
+		pbt.Count("python_follow_up_rejected_by_shipped_parser", 1)
+		return ""
+	}
+	// bring the lexer back to the state the first analysis left behind
+	resetPythonLexer()
+	pythonRejectsNext(c.Module.Code)
+	var res core_domain.CodeContainer
+	if p := call(func() { res = new(pyapp.PythonIdentApp).Analysis(next.Code, next.Path) }); p != "" {
+		return "PythonIdentApp.Analysis panicked on " + what + " analysed after the module below: " + p
+	}
+	if msg := judgePyContainer(res, next); msg != "" {
+		return "PythonIdentApp.Analysis on " + what + ", analysed after the module below: " + msg
+	}
+	if msg := judgePyContainer(first, c.Module); msg != "" {
+		return "PythonIdentApp.Analysis: the model of the module below changed when " + what + " was analysed afterwards: " + msg
+	}
+	return ""
 }
 
 func pyClasses(m PyModule) (classes []string, nonTrivial bool) {
@@ -586,8 +822,14 @@ func checkPyCase(c PyCase) pbt.Verdict {
 	if e := marshalOK(res); e != "" {
 		return pbt.Fail("result cannot be marshalled: %s", e)
 	}
+	if msg := judgeFollow(c, res); msg != "" {
+		return pbt.Fail("%s\n--- %s\n%s", msg, c.Module.Path, c.Module.Code)
+	}
 	v := pbt.Verdict{}
 	v.Classes, v.NonTrivial = pyClasses(c.Module)
+	if c.Follow > 0 {
+		v.Classes = append(v.Classes, fmt.Sprintf("follow_up=%d", c.Follow))
+	}
 	return v
 }
 
